@@ -111,6 +111,25 @@ fn monotone(mut pairs: gen::Pairs, start: u64, gaps: &[u64]) -> gen::Pairs {
     out
 }
 
+/// Case number `i` of the larger monotone maps (regenerated from the seed).
+fn check_larger(i: &u64, seed: u64, rec: &mut Rec) -> CheckResult {
+    let n = 200 + (crate::engine::mix(seed, *i) % 4000);
+    let keys: Vec<Vec<u8>> = if i % 2 == 0 {
+        gen::Recipe { kind: 1, n, seed: crate::engine::mix(seed, 77 + *i), fanout: 3 + (*i % 40) as u8, keylen: 8, values: 0 }.pairs().into_iter().map(|p| p.0).collect()
+    } else {
+        let mut ks: Vec<Vec<u8>> = (0..n).map(|j| { let h = crate::engine::mix(seed ^ *i, j); vec![(h >> 8) as u8, (h >> 16) as u8, (h >> 24) as u8 % 7] }).collect();
+        ks.sort();
+        ks.dedup();
+        ks
+    };
+    let start = if i % 3 == 0 { 0 } else if i % 3 == 1 { 1u64 << 63 } else { 9 };
+    let gaps: Vec<u64> = if i % 4 == 0 { vec![1] } else { vec![1, 255, 256, 1 << 20, 3, 1 << 40] };
+    let pairs = monotone(keys.into_iter().map(|k| (k, 0)).collect(), start, &gaps);
+    let c = Case { input: FstInput::new(gen::Front::MapBuilder, None, pairs), extra: vec![] };
+    rec.class("larger_map");
+    check(&c, rec)
+}
+
 pub fn run(e: &Engine) {
     e.set_rule("cases are (map with strictly increasing values, query values): queries are every stored value, every value +/- 1, 0, 1, u64::MAX-1, u64::MAX and random values; evaluations counts queries; oracle = inverse of the model for get_key and get_key_into on a junk-prefilled buffer; non-trivial = map with >= 3 keys and a query for an absent value lying between two stored values; distinct by (map hash, extra queries)");
     e.assume("non-monotone maps are never generated (documented unspecified)");
@@ -151,23 +170,7 @@ pub fn run(e: &Engine) {
     // larger maps (hundreds to thousands of keys, wide nodes) and values above 2^63
     let bigs: Vec<u64> = (0..e.tier.pick(12u64, 100)).collect();
     let seed = e.seed;
-    e.run_list("larger-monotone-maps", &bigs, |i| json!({"big_case": i}), |i, rec| {
-        let n = 200 + (crate::engine::mix(seed, *i) % 4000);
-        let keys: Vec<Vec<u8>> = if i % 2 == 0 {
-            gen::Recipe { kind: 1, n, seed: crate::engine::mix(seed, 77 + *i), fanout: 3 + (*i % 40) as u8, keylen: 8, values: 0 }.pairs().into_iter().map(|p| p.0).collect()
-        } else {
-            let mut ks: Vec<Vec<u8>> = (0..n).map(|j| { let h = crate::engine::mix(seed ^ *i, j); vec![(h >> 8) as u8, (h >> 16) as u8, (h >> 24) as u8 % 7] }).collect();
-            ks.sort();
-            ks.dedup();
-            ks
-        };
-        let start = if i % 3 == 0 { 0 } else if i % 3 == 1 { 1u64 << 63 } else { 9 };
-        let gaps: Vec<u64> = if i % 4 == 0 { vec![1] } else { vec![1, 255, 256, 1 << 20, 3, 1 << 40] };
-        let pairs = monotone(keys.into_iter().map(|k| (k, 0)).collect(), start, &gaps);
-        let c = Case { input: FstInput::new(gen::Front::MapBuilder, None, pairs), extra: vec![] };
-        rec.class("larger_map");
-        check(&c, rec)
-    });
+    e.run_list("larger-monotone-maps", &bigs, |i| json!({"big_case": i, "seed": seed.to_string()}), |i, rec| check_larger(i, seed, rec));
     for cls in ["empty_key_value_0", "empty_key_value_nonzero", "first_value_above_0"] {
         e.require_class(cls, 1);
     }
@@ -175,8 +178,11 @@ pub fn run(e: &Engine) {
 
 pub fn replay(_sub: &str, case: &Value) -> Option<CheckResult> {
     let mut rec = Rec::new(0);
-    if case.get("big_case").is_some() {
-        return None;
+    if let Some(i) = case.get("big_case").and_then(|x| x.as_u64()) {
+        return Some(crate::engine::guarded(|| {
+            let seed: u64 = case.get("seed").and_then(|x| x.as_str()).and_then(|x| x.parse().ok()).ok_or_else(bad)?;
+            check_larger(&i, seed, &mut rec)
+        }));
     }
     Some(crate::engine::guarded(|| check(&Case::from_json(case).ok_or_else(bad)?, &mut rec)))
 }
